@@ -34,7 +34,8 @@ tucker_als.py anchors (roles)
                   rank[n])`, core = `<that product>.ttm(U, n, transpose=True)`                (shape only)
 
 Anything outside the accepted subset is reported as "anchor lost: <name>", never guessed; the definitions that could
-be read are still emitted.  Doc comments carry the source snippet, never a line number.
+be read are still emitted.  Doc comments carry the expression that was translated (the source snippet with the inputs
+under their parameter names), never a line number: a shifted line or a renamed local does not change the generated text.
 """
 from __future__ import annotations
 
@@ -195,7 +196,9 @@ def _formula(anchor, e, allowed):
     body = t.tr(e)
     if set(t.params) - set(allowed):
         raise Lost(f"{anchor}: unexpected free names {sorted(set(t.params) - set(allowed))}")
-    return {"lean": body, "params": list(t.params), "python": text(e), "doc": flow.src_of(e) or text(e)}
+    # doc = the expression over the parameter names: what was translated and what the cross-check family evaluates; a
+    # refactoring that keeps the formula keeps the generated text byte for byte
+    return {"lean": body, "params": list(t.params), "python": text(e), "doc": text(e)}
 
 
 # ----------------------------------------------------------------------------
